@@ -310,7 +310,7 @@ def djs_reject(data, model, outmask=None, inmask=None, sigma=None,
     # to the number of sigma above or below the fit, or to the number
     # of multiples of maxdev away from the fit.
     #
-    badness = np.zeros(outmask.shape, dtype=data.dtype)
+    badness = np.zeros(outmask.shape, dtype=(data.dtype if data.dtype.kind == 'f' else 'd'))
     #
     # Decide how bad a point is according to lower.
     #
